@@ -50,3 +50,19 @@ Fixpoint bytes_index (s sub : list Z) : Z :=
        | [] => -1
        | _ :: r => let k := bytes_index r sub in if Z.ltb k 0 then -1 else k + 1
        end.
+(* xs[i] = v *)
+Fixpoint list_set_nat {A : Type} (l : list A) (i : nat) (v : A) : list A :=
+  match l, i with
+  | [], _ => []
+  | _ :: r, O => v :: r
+  | x :: r, S i' => x :: list_set_nat r i' v
+  end.
+Definition list_set {A : Type} (l : list A) (i : Z) (v : A) : list A := list_set_nat l (Z.to_nat i) v.
+(* map[string]V with byte-string keys *)
+Definition balist (V : Type) : Type := list (list Z * V).
+Fixpoint blookup {V : Type} (m : balist V) (k : list Z) : option V :=
+  match m with
+  | [] => None
+  | (k', v) :: r => if bytes_eqb k' k then Some v else blookup r k
+  end.
+Definition bupdate {V : Type} (m : balist V) (k : list Z) (v : V) : balist V := (k, v) :: m.
